@@ -1,3 +1,144 @@
-"""_lowlevel functions under contract: pure sub-lemmas for C01 and the containment / mode-switch part of C20."""
+"""_lowlevel functions under contract: the containment / mode-switch part of C20, pure sub-lemmas for C01."""
 from .common import *  # noqa
-UNITS = []
+import ast
+
+LL = "stackscope._lowlevel."
+for c_ in ("Context", "ArgInfo", "frame"):
+    register_class(c_)
+
+
+# ------------------------------------------------------------------------------------------------ contexts_active_in_frame
+def caf_setup(ex, p):
+    frame = sym_ref(p, "frame", "frame")
+    origin = sym_any(p, "origin")
+    nxt = sym_any(p, "next_inner")
+    p.pc.append(Or(Val.is_none(nxt.t), is_kind(nxt.t, "frame")))
+    p.env.update(frame=frame, origin=origin, next_inner=nxt)
+    p.ghost["warns"] = 0
+    return dict(frame=frame, origin=origin, next_inner=nxt)
+
+
+def ctx_list_post(pa, r, a):
+    return And(is_exact_kind(r, "list"), pa.length(r) >= 0)
+
+
+def with_context_elems(results):
+    """the lists returned by the two analyses hold Context objects (is_exiting is a bool)"""
+    for st, p1, v in results:
+        if st == "ok":
+            H = p1.snap()
+            r = v.t
+            p1.add_schema(r, lambda pth, j, H=H, r=r: Implies(And(j >= H.lo_(r), j < H.hi_(r)),
+                                                              And(is_kind(H.raw(r, j), "Context"), Val.a(H.raw(r, j)) >= 0,
+                                                                  Val.is_boolv(H.getf(H.raw(r, j), "is_exiting")))))
+    return results
+
+
+def m_trickery_available(ex, p, args, kwargs, node):
+    b = fresh("trickery_available")
+    p.pc.append(Val.is_boolv(b))
+    p.ghost["mode"] = b
+    return [("ok", p, SV(b, ty="bool"))]
+
+
+def m_by_trickery(ex, p, args, kwargs, node):
+    p.ghost["trickery_calls"] = p.ghost.get("trickery_calls", 0) + 1
+    return with_context_elems(oracle("_contexts_active_by_trickery", post=[ctx_list_post], ret_ty="list")(ex, p, args, kwargs, node))
+
+
+def m_by_referents(ex, p, args, kwargs, node):
+    p.ghost["referents_calls"] = p.ghost.get("referents_calls", 0) + 1
+    p.ghost["referents_args"] = (args[0].t, args[1].t)
+    return with_context_elems(oracle("_contexts_active_by_referents", post=[ctx_list_post], ret_ty="list", may_raise=False)(ex, p, args, kwargs, node))
+
+
+def m_warn(ex, p, args, kwargs, node):
+    p.ghost["warns"] = p.ghost.get("warns", 0) + 1
+    return [("ok", p, NONE_SV)]
+
+
+def m_getargvalues(ex, p, args, kwargs, node):
+    """inspect.getargvalues(frame) -> ArgInfo(args: list of names, ..., locals: dict); total on frame objects (assumed)"""
+    ai = p.new_obj("ArgInfo")
+    names = p.new_seq("list", length=fresh_int("nargs"), arr=fresh("argnames", AV))
+    p.pc.append(p.length(names) >= 0)
+    loc = p.new_dict()
+    p.havoc_dict(loc)
+    p.setf(ai, "args", names)
+    p.setf(ai, "locals", loc)
+    H = p.snap()
+    # every argument name is bound in locals (CPython: arguments are locals)
+    p.add_schema(names, lambda pth, j: Implies(And(j >= 0, j < H.length(names)), H.dhas(loc, H.raw(names, j))))
+    p.ghost["arginfo"] = (ai, names, loc, args[0].t)
+    return [("ok", p, SV(ai, ty="ArgInfo"))]
+
+
+def caf_post(ctx):
+    g = ctx.p.ghost
+    r = ctx.result.t
+    H = ctx.H
+    tr = [t for t in ctx.p.trace if t[0] == "_contexts_active_by_trickery"]
+    rf = [t for t in ctx.p.trace if t[0] == "_contexts_active_by_referents"]
+    mode = g["mode"]
+    failed = any(t[2][0] == "exc" for t in tr)
+    conj = [is_exact_kind(r, "list")]
+    if tr and not failed:
+        conj += [Val.b(mode), r == tr[0][2][1], BoolVal(len(rf) == 0), BoolVal(g.get("warns", 0) == 0)]
+    elif failed:
+        # a failing trickery analysis produces exactly one warning, never an exception, and the fallback result is used
+        conj += [Val.b(mode), BoolVal(len(rf) == 1 and g.get("warns", 0) == 1), r == rf[0][2][1] if rf else BoolVal(False),
+                 rf[0][1][0] == ctx.args["frame"].t if rf else BoolVal(False)]
+    else:
+        conj += [Not(Val.b(mode)), BoolVal(len(rf) == 1 and len(tr) == 0 and g.get("warns", 0) == 0), r == rf[0][2][1] if rf else BoolVal(False)]
+    # the exiting manager's obj is overwritten only if the last context is exiting, a next frame exists and it has arguments
+    n = H.length(r)
+    last = H.at(r, n - 1)
+    nxt = ctx.args["next_inner"].t
+    ai = g.get("arginfo")
+    if ai is not None:
+        _, names, loc, fr = ai
+        conj += [n > 0, H.getf(last, "is_exiting") != mkbool(False), Not(Val.is_none(nxt)), fr == nxt,
+                 Implies(H.length(names) > 0, H.getf(last, "obj") == H.dget(loc, H.at(names, 0)))]
+    return And(conj)
+
+
+def caf_frame_cond(ctx):
+    """contexts other than the last one are not touched"""
+    return BoolVal(True)
+
+
+CAF_UNIT = Unit("C20.contexts_active_in_frame", LL + "contexts_active_in_frame", caf_setup,
+                post=[Clause("C20.contain.trickery_failure_warns_and_falls_back", caf_post)],
+                bindings=dict(STD_BINDINGS, _check_trickery_available=m_trickery_available, _contexts_active_by_trickery=m_by_trickery,
+                              _contexts_active_by_referents=m_by_referents,
+                              # the analysis steps themselves: any of them may raise (version-specific bytecode assumptions)
+                              analyze_with_blocks=oracle("analyze_with_blocks"), inspect_frame=oracle("inspect_frame"),
+                              currently_exiting_context=oracle("currently_exiting_context"),
+                              **{"warnings.warn": m_warn, "traceback.print_exc": lambda ex, p, a, k, n: [("ok", p, NONE_SV)],
+                                 "inspect.getargvalues": m_getargvalues, "InspectionWarning": cls("Exception")}),
+                methods=dict(STD_METHODS), field_types={"args": "list", "locals": "dict"}, known_classes=["Context", "ArgInfo"],
+                allowed_raise=lambda ctx: BoolVal(False),
+                assumptions=["_contexts_active_by_trickery may raise any Exception (that is the point); _contexts_active_by_referents and "
+                             "inspect.getargvalues are total on frame objects; warnings.warn / traceback.print_exc return normally",
+                             "elements of the returned lists are Context objects with boolean is_exiting"])
+
+
+# ------------------------------------------------------------------------------------------------ mode switch
+def ste_setup(ex, p):
+    mod = sym_ref(p, "module", "module")
+    enabled = sym_any(p, "enabled")
+    p.pc.append(Or(Val.is_none(enabled.t), Val.is_boolv(enabled.t)))
+    lock = SV(z3.Const("_trickery_lock", Val), ty="lock", name="_trickery_lock")
+    ex.unit.bindings.update({"$module": mod, "_trickery_lock": lock})
+    p.env["enabled"] = enabled
+    return dict(mod=mod, enabled=enabled)
+
+
+STE_UNIT = Unit("C20.set_trickery_enabled", LL + "set_trickery_enabled", ste_setup,
+                post=[Clause("C20.mode.set_takes_effect_globally",
+                             lambda ctx: And(ctx.H.getf(ctx.args["mod"].t, "_can_use_trickery") == ctx.args["enabled"].t,
+                                             BoolVal(ctx.p.ghost.get("locks_held", ()) == ())))],
+                bindings=dict(STD_BINDINGS), methods=dict(STD_METHODS),
+                assumptions=["_can_use_trickery is a module global: one cell shared by all threads; threading.Lock is a mutex"])
+
+UNITS = [CAF_UNIT, STE_UNIT]
